@@ -31,7 +31,7 @@ try:
     res["baseline"] = [l for l in b.stdout.splitlines() if l.startswith("stable=")][-1:] or [b.stdout[-200:]]
     res["baseline_ok"] = b.returncode == 0
     c = subprocess.run([str(ROOT / "check"), prop, "--tier", tier], cwd=ROOT, capture_output=True, text=True,
-                       env=dict(os.environ, VERIF_REPO=str(d)))
+                       env=dict(os.environ, VERIF_REPO=str(d), VERIF_EVIDENCE_DIR=str(d / ".evidence")))
     lines = [l for l in c.stdout.splitlines() if "WARNING conda" not in l]
     res["check_exit"] = c.returncode
     res["check_lines"] = [l for l in lines if l.startswith("VIOLATION") or l.startswith("  clause") or l.startswith(prop)][:6]
